@@ -77,8 +77,10 @@ def candidates_b(w):
     yield from worlds_b.shrink_candidates(w)
 
 
-def shrink(spec, world, clause, max_evals=120):
+def shrink(spec, world, clause, max_evals=None):
     """Return (minimised world, evaluations). Deterministic pass order."""
+    if max_evals is None:
+        max_evals = 120 if spec.engine == "A" else 40
     cur = world
     evals = 0
     improved = True
